@@ -6,6 +6,8 @@ import (
 	"io"
 	"strings"
 	"unicode"
+
+	yaml "gopkg.in/yaml.v3"
 )
 
 // C14 — codecs are faithful (claimed only where the escaping / structure is yq's own code).
@@ -594,4 +596,71 @@ func VerifC14LuaKeys() {
 		}
 	}
 	verifCover("C14/luakeys/end")
+}
+
+// VerifC14PreferencesCopy: the in-expression encoders (to_json, to_yaml, to_xml, @xml, to_props) work on a copy of
+// the configured preferences; the copy carries every setting of the original (all fields solver-chosen).
+func VerifC14PreferencesCopy() {
+	switch verifChoice("format", 4) {
+	case 0:
+		p := XmlPreferences{Indent: verifIntRange("indent", 0, 8), AttributePrefix: verifPick("ap", "+@", "_", ""), ContentName: verifPick("cn", "+content", "#text"),
+			StrictMode: verifBool("strict"), KeepNamespace: verifBool("keepns"), UseRawToken: verifBool("raw"), ProcInstPrefix: verifPick("pi", "+p_", "?"),
+			DirectiveName: verifPick("dn", "+directive", "!d"), SkipProcInst: verifBool("skippi"), SkipDirectives: verifBool("skipd")}
+		verifAssert(p.Copy() == p, "C14/copy-of-xml-preferences-loses-a-setting")
+	case 1:
+		p := YamlPreferences{Indent: verifIntRange("indent", 0, 8), ColorsEnabled: verifBool("colors"), LeadingContentPreProcessing: verifBool("lead"),
+			PrintDocSeparators: verifBool("seps"), UnwrapScalar: verifBool("unwrap"), EvaluateTogether: verifBool("together")}
+		verifAssert(p.Copy() == p, "C14/copy-of-yaml-preferences-loses-a-setting")
+	case 2:
+		p := JsonPreferences{Indent: verifIntRange("indent", 0, 8), ColorsEnabled: verifBool("colors"), UnwrapScalar: verifBool("unwrap")}
+		verifAssert(p.Copy() == p, "C14/copy-of-json-preferences-loses-a-setting")
+	default:
+		p := PropertiesPreferences{UnwrapScalar: verifBool("unwrap"), KeyValueSeparator: verifPick("sep", " = ", "=", ": "), UseArrayBrackets: verifBool("brackets")}
+		verifAssert(p.Copy() == p, "C14/copy-of-properties-preferences-loses-a-setting")
+	}
+	verifCover("C14/prefs-copy/end")
+}
+
+// VerifC14InExpressionXML: `to_xml` / `@xml` inside an expression write what `-o=xml` writes for the same value
+// (directive, processing instruction, attributes, content), and `from_xml` reads it back to the same value.
+func VerifC14InExpressionXML() {
+	v := verifStrN("v", 1, "az")
+	shape := verifChoice("shape", 4)
+	var n *yaml.Node
+	switch shape {
+	case 0:
+		n = vMap(vStr("+directive"), vStr("DOCTYPE r"+v), vStr("r"), vMap(vStr("k"), vStr(v)))
+	case 1:
+		n = vMap(vStr("+p_xml"), vStr("version=\"1.0\""), vStr("r"), vMap(vStr("+@a"), vStr(v), vStr("+content"), vStr("t"+v)))
+	case 2:
+		n = vMap(vStr("+p_xml"), vStr("version=\"1.0\""), vStr("+directive"), vStr("DOCTYPE r"), vStr("r"), vMap(vStr("i"), vSeq(vStr(v), vStr("w"))))
+	default:
+		n = vMap(vStr("r"), vMap(vStr("+@a"), vStr(v), vStr("c"), vMap(vStr("+directive"), vStr("x"))))
+	}
+	form := []string{"to_xml", "@xml", "to_xml(0)"}[verifChoice("form", 3)]
+	label := form + " shape=" + verifItoa(int64(shape))
+	res, err := vEval(vParse(form), vDoc(n))
+	prefs := ConfiguredXMLPreferences // the settings `-o=xml` encodes with (a plain struct copy)
+	if form != "to_xml" {
+		prefs.Indent = 0
+	}
+	var sb strings.Builder
+	w := bufio.NewWriter(c17Writer{&sb})
+	printer := NewPrinter(NewXMLEncoder(prefs), NewSinglePrinterWriter(w))
+	perr := printer.PrintResults(vDoc(n).AsList())
+	_ = w.Flush()
+	verifAssert((err == nil) == (perr == nil), "C14/in-expression-xml-fails-where-the-output-format-does-not "+label)
+	if err != nil || perr != nil {
+		verifCover("C14/inexpr-xml/error")
+		return
+	}
+	verifAssert(res.Len() == 1, "C14/in-expression-xml-result-count "+label)
+	if res.Len() != 1 {
+		return
+	}
+	got := res.Front().Value.(*CandidateNode).Value
+	want := sb.String()
+	verifObserve("got", got)
+	verifAssert(verifEqStr(got, want), "C14/in-expression-xml-differs-from-xml-output "+label)
+	verifCover("C14/inexpr-xml/end")
 }
